@@ -43,6 +43,7 @@ type Obligation struct {
 	MustSat    bool // cover obligations: expected sat
 	Using      []string
 	UsingFacts []string
+	Tag        int // slicing tag of the block the obligation belongs to (-1: prologue)
 	SinceLine  int // sliced context additionally keeps every prefix line from this index on (-1: none)
 	// results
 	Status  string // proved, failed, unknown, error
@@ -74,6 +75,7 @@ type loopInfo struct {
 	headGhost    map[string]string
 	preNext      string // allocation counter at loop entry
 	unknownSorts map[string]bool
+	stable       []stablePath
 	appendFresh  bool // appends to loop-carried slices: in-place targets must be objects allocated since loop entry
 }
 
@@ -87,6 +89,11 @@ type Gen struct {
 	sorts []string // heap sorts
 
 	lines []string
+	// control-flow slicing: every emitted line carries the tag of the block that produced it (-1: prologue); an
+	// obligation keeps only the lines of blocks that can reach its own block along forward edges
+	lineTag []int
+	curTag  int
+	tagAnc  map[int]map[int]bool
 	obls  []*Obligation
 	ncnt  int
 	kcnt  map[string]int
@@ -176,7 +183,52 @@ func sanitize(s string) string {
 	return r.Replace(s)
 }
 
-func (g *Gen) emit(s string) { g.lines = append(g.lines, s) }
+func (g *Gen) emit(s string) {
+	if len(g.lineTag) > len(g.lines) {
+		g.lineTag = g.lineTag[:len(g.lines)]
+	}
+	for len(g.lineTag) < len(g.lines) {
+		g.lineTag = append(g.lineTag, -1)
+	}
+	g.lines = append(g.lines, s)
+	g.lineTag = append(g.lineTag, g.curTag)
+}
+
+// tagOf: the slicing tag of a block: its index, or the header index of the outermost unrolled loop containing it
+// (an unrolled loop is one node: its iterations follow each other).
+func (g *Gen) tagOf(b *ssa.BasicBlock) int {
+	best, size := b.Index, -1
+	for h, li := range g.loops {
+		if li.spec != nil && li.spec.UnrollN > 0 && li.body[b] && len(li.body) > size {
+			best, size = h.Index, len(li.body)
+		}
+	}
+	return best
+}
+
+// computeTagAnc: ancestors (reflexive) of every tag over forward edges.
+func (g *Gen) computeTagAnc() {
+	g.tagAnc = map[int]map[int]bool{}
+	for pass := 0; pass < 3; pass++ {
+		for _, b := range g.order {
+			t := g.tagOf(b)
+			if g.tagAnc[t] == nil {
+				g.tagAnc[t] = map[int]bool{t: true}
+			}
+			for _, p := range b.Preds {
+				pt := g.tagOf(p)
+				if g.isBackEdge(p, b) && pt != t {
+					continue
+				}
+				g.tagAnc[t][pt] = true
+				for a := range g.tagAnc[pt] {
+					g.tagAnc[t][a] = true
+				}
+			}
+		}
+	}
+}
+
 
 func (g *Gen) declare(name, sort string) { g.emit(fmt.Sprintf("(declare-const %s %s)", name, sort)) }
 
@@ -226,7 +278,7 @@ func (g *Gen) obligeNamed(name, kind, goal string, pos token.Pos, desc string, p
 		g.usedNames = map[string]bool{}
 	}
 	g.usedNames[name] = true
-	o := &Obligation{Name: name, Kind: kind, Unit: g.unit, PrefixLen: len(g.lines),
+	o := &Obligation{Name: name, Kind: kind, Unit: g.unit, PrefixLen: len(g.lines), Tag: g.curTag,
 		Goal: fmt.Sprintf("(=> %s %s)", g.reach, goal), Desc: desc, Props: props}
 	if pos.IsValid() {
 		p := g.eng.fset.Position(pos)
@@ -612,6 +664,15 @@ func (g *Gen) globalObj(x *ssa.Global) string {
 			if n > 0 {
 				g.assumedUsed["package-level constant "+x.Pkg.Pkg.Name()+"."+x.Name()+" holds its initialiser on entry (never written outside init: C13 sweep)"] = true
 			}
+			// var label = []byte("..."): the slice holds exactly the bytes of the string constant
+			if str, ok := g.eng.globalStringInit(x); ok && g.view.Bytes && len(cells) == 4 {
+				h := g.H0["Int"]
+				so, sf, sl, sc := sel2(h, o, "0"), sel2(h, o, "1"), sel2(h, o, "2"), sel2(h, o, "3")
+				id := g.eng.stringID(str)
+				g.use("str")
+				g.assumeRaw(fmt.Sprintf("(and (>= %s 1) (< %s nextobj0) (>= %s 0) (= %s %d) (= %s %d) (= (bseq (select %s %s) %s %s) (strbytes %s)))", so, so, sf, sl, len(str), sc, len(str), h, so, sf, sl, id))
+				g.assumedUsed["package-level label "+x.Pkg.Pkg.Name()+"."+x.Name()+" holds the bytes of its string initialiser on entry (never written outside init: C13 sweep)"] = true
+			}
 		}()
 	}
 	return o
@@ -742,6 +803,9 @@ func (g *Gen) run() {
 				continue
 			}
 			for _, c := range invs {
+				if !g.preludesCover(c.E) {
+					continue // the invariant speaks a vocabulary this unit does not use
+				}
 				g.assumeRaw(g.specBool(&sub, c.E))
 				g.assumedUsed["package invariant (established by init, preserved because nothing writes the variable: C13 sweep): "+c.Text] = true
 			}
@@ -1034,6 +1098,7 @@ func (g *Gen) incoming(b *ssa.BasicBlock, back bool) []inEdge {
 // enterBlock sets the current state to the join of the incoming edges; returns false if the block is unreachable.
 func (g *Gen) enterBlock(b *ssa.BasicBlock, ins []inEdge) bool {
 	g.cur = b
+	g.curTag = g.tagOf(b)
 	if b.Index == 0 && len(ins) == 0 {
 		g.reach = "true"
 		return true
@@ -1121,6 +1186,7 @@ func (g *Gen) mergeVals(t types.Type, hint string, vs []*Val, conds []string) *V
 }
 
 func (g *Gen) walkBlock(b *ssa.BasicBlock) {
+	g.curTag = g.tagOf(b)
 	li := g.loops[b]
 	ins := g.incoming(b, false)
 	if !g.enterBlock(b, ins) {
@@ -1321,6 +1387,7 @@ func (g *Gen) dispatch(b *ssa.BasicBlock) {
 	if g.doneBlocks[b] {
 		return
 	}
+	g.curTag = g.tagOf(b)
 	if li := g.loops[b]; li != nil && li.spec.UnrollN > 0 {
 		var body []*ssa.BasicBlock
 		for _, x := range g.order {
@@ -1416,4 +1483,45 @@ func sortedValKeys(m map[string]*Val) []string {
 	}
 	sort.Strings(out)
 	return out
+}
+
+// preludesCover reports whether every prelude function called by e belongs to a prelude the unit's contract
+// names (directly or as a dependency).
+func (g *Gen) preludesCover(e *Expr) bool {
+	have := map[string]bool{}
+	var add func(n string)
+	add = func(n string) {
+		if have[n] {
+			return
+		}
+		have[n] = true
+		for _, d := range g.eng.prelude.deps[n] {
+			add(d)
+		}
+	}
+	for _, p := range g.ct.Preludes {
+		add(p)
+	}
+	ok := true
+	var walk func(x *Expr)
+	walk = func(x *Expr) {
+		if x == nil {
+			return
+		}
+		if x.Op == "call" && len(x.Args) > 0 && x.Args[0].Op == "id" {
+			if sig, is := g.eng.prelude.sigs[x.Args[0].Tok]; is && !have[sig.file] {
+				ok = false
+			}
+		}
+		if x.Op == "id" {
+			if sig, is := g.eng.prelude.sigs[x.Tok]; is && !have[sig.file] {
+				ok = false
+			}
+		}
+		for _, a := range x.Args {
+			walk(a)
+		}
+	}
+	walk(e)
+	return ok
 }
